@@ -59,19 +59,21 @@ def traces_for(seed, count, length):
         collect = [0, 1, 1, 2][n % 4]
         tc = annenv.tcfg(collect=collect, cyclic=[4, 0][n % 2])
         sched = gen(rng, rng.randint(2, length), collect)
-        ev, _ = annenv.run_schedule(sched, tc, INSTS, ann0=INSTS, t_extra=collect + 6)
-        out.append({"cfg": {"collect": collect, "dsts": DSTS}, "ev": monpass.add_adv(ev), "sched": sched, "tc": tc,
-                    "diag": {"collect": collect}})
+        # now and then one transmission fails (the transport raises after the datagram was handed over): later ones must still go out
+        fails = [rng.randint(0, 4)] if collect and n % 5 == 4 else []
+        ev, _ = annenv.run_schedule(sched, tc, INSTS, ann0=INSTS, t_extra=collect + 6, send_failures=fails)
+        out.append({"cfg": {"collect": collect, "dsts": DSTS}, "ev": monpass.add_adv(ev), "sched": sched, "tc": tc, "fails": fails,
+                    "diag": {"collect": collect, "failed_sends": fails}})
     return out
 
 
 def rerun(p):
-    ev, _ = annenv.run_schedule(p["sched"], p["tc"], INSTS, ann0=INSTS, t_extra=p["tc"]["collect"] + 6)
+    ev, _ = annenv.run_schedule(p["sched"], p["tc"], INSTS, ann0=INSTS, t_extra=p["tc"]["collect"] + 6, send_failures=p.get("fails", ()))
     return {"cfg": {"collect": p["tc"]["collect"], "dsts": DSTS}, "ev": monpass.add_adv(ev), "sched": p["sched"], "tc": p["tc"]}
 
 
 def payload(tr):
-    return {"sched": tr["sched"], "tc": tr["tc"], "trace": tr["ev"]}
+    return {"sched": tr["sched"], "tc": tr["tc"], "trace": tr["ev"], "fails": tr.get("fails", [])}
 
 
 def check(ctx):
@@ -89,7 +91,7 @@ def check(ctx):
                        "Mon_C15", {"collect": 1, "dsts": DSTS})
     groups = {}
     for tr in traces[: ctx.pick(80, 800)]:
-        if max(len(e.get("es", [])) for e in tr["ev"]) <= 6:      # (long bursts make the bag comparison slow)
+        if max(len(e.get("es", [])) for e in tr["ev"]) <= 6 and not tr.get("fails"):      # (long bursts make the bag comparison slow)
             groups.setdefault((tr["tc"]["collect"], tr["tc"]["cyclic"]), []).append(tr)
     acc = total = 0
     for (c, cy), trs in groups.items():
